@@ -10,7 +10,8 @@ TIERS = {"quick": dict(examples=2000), "thorough": dict(examples=60000)}
 RULE = ("Honest pair under generated schedules with `message` duplication/reordering (off for the "
         "versions-before-messages clause), 0-3 connection losses, both API styles; in Deferred mode every "
         "get_*() is requested at tape-chosen moments (early / interleaved / late) and again after closed; "
-        "optional early close() on one side. Oracle per side: each of code/key/verifier/versions/closed at most "
+        "optional early close() on one side, also while the WebSocket negotiation of the first connection is still "
+        "in flight. Oracle per side: each of code/key/verifier/versions/closed at most "
         "once; code < key < verifier < {versions, messages} < closed; verifier before any peer data; with an "
         "order-preserving server versions precede every message; every Deferred ever obtained has fired by "
         "quiescence, those obtained after closed fired with a failure, none fired twice. Non-trivial = a "
@@ -34,8 +35,12 @@ def cases(draw, tier="quick"):
     P["reorder"] = draw(st.booleans())
     P["gets"] = draw(st.sampled_from(["early", "tape", "tape", "late", "after"]))
     P["get_after_closed"] = True
-    if draw(st.integers(0, 3)) == 0:
-        P["closes"] = [[draw(st.integers(0, 1)), draw(st.sampled_from([None, "code", "key", "verifier", "versions"]))]]
+    P["hs_slow"] = draw(st.sampled_from([[False, False], [False, False], [True, False], [True, True]]))
+    if draw(st.integers(0, 2)) == 0:
+        P["closes"] = [[draw(st.integers(0, 1)), draw(st.sampled_from([None, "halfopen", "halfopen", "code", "key", "verifier", "versions"]))]]
+        if P["closes"][0][1] == "halfopen":
+            P["hs_slow"] = list(P["hs_slow"])
+            P["hs_slow"][P["closes"][0][0]] = "only"
     n = draw(st.integers(0, 260))
     P["tape"] = draw(st.binary(min_size=n, max_size=n))
     return P
